@@ -202,7 +202,7 @@ pub fn gen(tier: Tier, rng: &mut Rng64, out: &mut Out) {
         for e in &five[5] { if rng.chance(1, 6) { run("C15.eval", &[names_field(&abc), sexp(e)], out); } }
     }
     // --- random larger trees over 0..7 variables, some with an unknown name; strings through eval_expression_string
-    let rounds = if thorough { 60000 } else { 2500 };
+    let rounds = if thorough { 200000 } else { 2500 };
     for i in 0..rounds {
         let n = (i % 8) as usize;
         let names: Vec<String> = if i % 5 == 0 && n <= FANCY.len() { FANCY[..n].iter().map(|x| s(x)).collect() } else { anon(n) };
@@ -231,7 +231,7 @@ pub fn gen(tier: Tier, rng: &mut Rng64, out: &mut Out) {
         let names: Vec<String> = if i % 4 == 0 { FANCY[..4].iter().map(|x| s(x)).collect() } else { anon(4) };
         run("C15.export", &[names_field(&names), fmt_bdd(&b)], out);
     }
-    for i in 0..(if thorough { 30000 } else { 1500 }) {
+    for i in 0..(if thorough { 80000 } else { 1500 }) {
         let n = 5 + (i % 3) as usize;
         let b = random_bdd(rng, n);
         run("C15.export", &[names_field(&anon(n)), fmt_bdd(&b)], out);
